@@ -41,6 +41,7 @@ from elementpath.compare import get_key_function, same_key
 from elementpath.tree_builders import get_node_tree
 from elementpath.xpath_nodes import XPathNode, DocumentNode, EtreeElementNode
 from elementpath.xpath_tokens import XPathFunction, XPathConstructor, XPathMap, XPathArray
+from elementpath.xpath_tokens.maps import dict_key, atomic_key
 from elementpath.xpath_context import XPathSchemaContext
 from elementpath.validators import validate_json_to_xml
 
@@ -152,8 +153,8 @@ def evaluate__map_put(self: XPathFunction, context: ta.ContextType = None) -> XP
     if value is None:
         value = []
 
-    items = {k: v for k, v in map_.items(context) if not same_key(k, key)}
-    items[key] = value
+    items = [(k, v) for k, v in map_.items(context) if not same_key(k, key)]
+    items.append((key, value))
     return XPathMap(self.parser, items=items)
 
 
@@ -211,40 +212,41 @@ def evaluate__map_merge(self: XPathFunction, context: ta.ContextType = None) -> 
         # sequence concatenation in a new list: the values of the operand maps are not touched
         return [*(v1 if isinstance(v1, list) else [v1]), *(v2 if isinstance(v2, list) else [v2])]
 
-    items: dict[Any, Any] = {}
+    items: dict[Any, Any] = {}  # keyed like the dictionary of a map: see dict_key()
     for map_ in self[0].select(context):
         assert isinstance(map_, XPathMap)
         for k1, v in map_.items(context):
+            d1 = dict_key(k1)
             # Speed up for certain key types or float values
             if isinstance(k1, SAFE_KEY_ATOMIC_TYPES) or \
                     isinstance(k1, float) and not math.isnan(k1):
-                if k1 not in items:
-                    items[k1] = v
+                if d1 not in items:
+                    items[d1] = v
                 elif duplicates == 'reject':
                     raise self.error('FOJS0003')
                 elif duplicates == 'use-last':
-                    items.pop(k1)  # remove before to replace the key
-                    items[k1] = v
+                    items.pop(d1)  # remove before to replace the key
+                    items[d1] = v
                 elif duplicates == 'combine':
-                    items[k1] = combine_values(items[k1], v)
+                    items[d1] = combine_values(items[d1], v)
                 continue
 
             # TODO: too slow. An alternative idea is to couple with the type
             #   or an index for unsafe types, and then unpack after merge.
-            for k2 in items:
-                if same_key(k1, k2):
+            for d2 in items:
+                if same_key(k1, atomic_key(d2)):
                     if duplicates == 'reject':
                         raise self.error('FOJS0003')
                     elif duplicates == 'use-last':
-                        items.pop(k2)  # remove before to replace the key
-                        items[k1] = v
+                        items.pop(d2)  # remove before to replace the key
+                        items[d1] = v
                     elif duplicates == 'combine':
-                        items[k2] = combine_values(items[k2], v)
+                        items[d2] = combine_values(items[d2], v)
                     break
             else:
-                items[k1] = v
+                items[d1] = v
 
-    return XPathMap(self.parser, items)
+    return XPathMap(self.parser, [(atomic_key(d), v) for d, v in items.items()])
 
 
 @method(function('find', prefix='map', nargs=2,
